@@ -1203,7 +1203,17 @@ class OP4:
             numform : string
                 Format string for numbers, eg: '%16.9E'.
         """
-        numlen = digits + 5 + self._expdigits  # -1.digitsE-009
+        # number of exponent digits needed by the data: values with 3-digit
+        # exponents (eg, -2.5E-120) must not overflow the field width
+        expdigits = self._expdigits
+        vals = matrix[3] if isinstance(matrix, tuple) else matrix
+        vals = np.abs(np.asarray(vals).ravel().view(float))
+        vals = vals[np.isfinite(vals) & (vals != 0.0)]
+        if vals.size > 0:
+            for x in (vals.max(), vals.min()):
+                string = f"{x:.{digits}E}"
+                expdigits = max(expdigits, len(string) - (string.find("E") + 2))
+        numlen = digits + 5 + expdigits  # -1.digitsE-009
         perline = 80 // numlen
 
         (rows, cols, form, mtype, multiplier, int_width) = OP4._get_header_info(
